@@ -449,7 +449,9 @@ func (scEcho) Run(t *testing.T, prop string, seed uint64, cfgRaw json.RawMessage
 		defer w.Close()
 		w.TraceOn = trace
 		w.YieldP = cfg.YieldP
-		w.S.Link.Addrs = append(w.S.Link.Addrs, second4)
+		if !w.subnet4 {
+			w.S.Link.Addrs = append(w.S.Link.Addrs, second4)
+		}
 		if steps == nil {
 			for i := 0; i < cfg.MaxSteps && w.Viol == nil; i++ {
 				s := w.next()
